@@ -219,7 +219,11 @@ def reader_reuse(ctx, report, rule="R-DOC-REUSE", clause="1"):
                 continue
             except AnalysisError as e:
                 raise AnalysisError(f"{rname}.read (one object, three documents) cannot be folded: {e}")
-            if k1 != ka or k3 != ka:
+            if W.F.process_state:
+                bad.append(dict(case, why="the read changed a process-wide setting, under which every later read and write runs",
+                                settings=dict(W.F.process_state)))
+                W.F.process_state.clear()
+            elif k1 != ka or k3 != ka:
                 bad.append(dict(case, why="a read of the first document differs from a fresh reader's", first=str(k1)[:160],
                                 third=str(k3)[:160], fresh=str(ka)[:160]))
             elif k2 != kb:
